@@ -68,9 +68,13 @@ Section Step.
   Qed.
 
   Lemma step_close : forall f p0 fs dr L p pe r,
+      (0 < L)%Z ->
       step (mkS (f :: p0 :: fs) dr L p pe) (String ")" r) =
       Cont (mkS (add_child p0 f :: fs) dr (L - 1)%Z (Some CLOSEPAR) false) r.
-  Proof. intros. reflexivity. Qed.
+  Proof.
+    intros. unfold Newick.step. cbn.
+    replace (L - 1 <? 0)%Z with false by (symmetry; apply Z.ltb_ge; lia). reflexivity.
+  Qed.
 
   Lemma step_comma : forall f p0 fs dr L p pe r,
       step (mkS (f :: p0 :: fs) dr L p pe) (String "," r) =
